@@ -1,6 +1,8 @@
 package main
 
 import (
+	"crypto/sha256"
+	"encoding/hex"
 	"fmt"
 	"os"
 	"path/filepath"
@@ -44,6 +46,13 @@ func main() {
 		from, _ := strconv.ParseInt(a[5], 10, 64)
 		dl, _ := strconv.ParseInt(a[6], 10, 64)
 		os.Exit(fw.RunWorker(a[0], a[1], seed, shard, shards, from, dl, a[7], a[8]))
+	case "solo":
+		if fw.Solo == nil || len(os.Args) < 3 {
+			fmt.Println("solo not available in this build")
+			os.Exit(2)
+		}
+		h := sha256.Sum256([]byte(fw.Solo(os.Args[2])))
+		fmt.Println(hex.EncodeToString(h[:]))
 	case "replay":
 		if len(os.Args) < 3 {
 			usage()
